@@ -5,6 +5,7 @@ import (
 	"hash/fnv"
 	"math/rand"
 	"slices"
+	"strconv"
 	"strings"
 	"sync"
 	"sync/atomic"
@@ -127,7 +128,15 @@ func (x *inst) seq() []string {
 
 var reportMu sync.Mutex
 
+// selfTesting is set while the harness checks its own machinery on a few hand-made paths: an
+// oracle failure there is not reported (the searches execute the same steps and report them
+// with a proper path).
+var selfTesting bool
+
 func (x *inst) report(sig, what string) {
+	if selfTesting {
+		return
+	}
 	reportMu.Lock()
 	defer reportMu.Unlock()
 	seq := x.seq()
@@ -151,10 +160,37 @@ func (x *inst) report(sig, what string) {
 	x.sys.r.Violation(sig, what, c, x.goTest())
 }
 
-// fail reports a failed transition oracle and stops the exploration below this state.
+// fail reports a divergence between the real object and the model and stops the exploration
+// below this state. The engine takes the key before it calls Check and keeps the state in the
+// frontier when Check returns nil, so a state that failed in Check is remembered by its path:
+// the replay that would expand it finds it dead and offers no operations.
 func (x *inst) fail(sig, what string) {
 	x.report(sig, what)
 	x.dead = true
+	if !selfTesting {
+		deadPaths.Store(x.pathKey(), true)
+		atomic.AddInt64(&nDead, 1)
+	}
+}
+
+var (
+	deadPaths sync.Map
+	nDead     int64
+)
+
+func (x *inst) pathKey() string {
+	var b strings.Builder
+	b.WriteString(x.sys.name)
+	fmt.Fprintf(&b, "#%d", x.start)
+	for _, o := range x.hist {
+		b.WriteByte(';')
+		b.WriteString(o.Name)
+		for _, a := range o.Args {
+			b.WriteByte(',')
+			b.WriteString(strconv.Itoa(a))
+		}
+	}
+	return b.String()
 }
 
 // call runs one golib entry point; a panic is a violation.
@@ -373,13 +409,6 @@ func presence(p bool) string {
 	return "absent"
 }
 
-func b2i(b bool) int {
-	if b {
-		return 1
-	}
-	return 0
-}
-
 // drain removes the members of one bucket one by one (macro transition), keeping the `keep`
 // last ones of the chosen order. Every Remove result, Len and the membership of the removed
 // value are compared at every step; the full battery runs at the milestones.
@@ -437,6 +466,11 @@ func (x *inst) Apply(op space.Op) *space.Mismatch {
 		x.drain(uint32(op.Args[0]), op.Args[1] == 1, op.Args[2])
 	case "Refill":
 		x.addMany(uint32(op.Args[0]), patterns[op.Args[2]], op.Args[1])
+	}
+	if atomic.LoadInt64(&nDead) > 0 && !x.dead {
+		if _, d := deadPaths.Load(x.pathKey()); d {
+			x.dead = true
+		}
 	}
 	return nil
 }
@@ -521,9 +555,13 @@ func (x *inst) Check() *space.Mismatch {
 	return nil
 }
 
-// battery compares every read-only query with the model. Its failures do not stop the
-// exploration (a wrong answer of a query does not change the object), they are reported with the
-// path of the state and the search goes on below it.
+// battery compares every read-only query with the model.
+//
+// Len / Contains disagreeing with the model means the stored set itself is no longer the model's
+// set: reported, and the exploration stops below this state (everything after it would only echo
+// the same divergence). A wrong enumeration by Iter / Range / All while Len and Contains agree is
+// a defect of the read-only query alone: reported with the path of the state, and the search
+// goes on below the state.
 func (x *inst) battery(note string) {
 	want := x.sortedModel()
 	if len(want) != len(x.model) {
@@ -535,45 +573,37 @@ func (x *inst) battery(note string) {
 		return
 	}
 	if n != len(want) {
-		x.report("RoaringBitmap.Len|wrong|"+x.last, fmt.Sprintf("Len = %d, the set has %d members%s", n, len(want), note))
+		x.fail("RoaringBitmap.Len|wrong|"+x.last, fmt.Sprintf("Len = %d, the set has %d members%s", n, len(want), note))
+		return
 	}
 
-	// Contains: probes (alphabet, neighbours, bucket boundaries) and every member
-	var fp, fn bool
-	probe := func(v uint32) bool {
-		var c bool
-		if !x.call("Contains", func() { c = x.bm.Contains(v) }) {
-			return false
-		}
-		_, w := x.model[v]
-		if c && !w && !fp {
-			fp = true
-			x.report("RoaringBitmap.Contains|false-positive|"+x.bucketClass(v>>16), fmt.Sprintf("Contains(%s) = true, the value is not a member%s", hex(v), note))
-		}
-		if !c && w && !fn {
-			fn = true
-			x.report("RoaringBitmap.Contains|false-negative|"+x.bucketClass(v>>16), fmt.Sprintf("Contains(%s) = false, the value is a member%s", hex(v), note))
-		}
-		return true
-	}
-	for _, v := range x.sys.starts[x.start].probes {
-		if !probe(v) {
-			return
-		}
-	}
-	miss, missed := uint32(0), false
+	// Contains: probes (alphabet, neighbours x-1 / x+1, bucket boundaries), then every member
+	var bad uint32
+	var got, found bool
 	if !x.call("Contains", func() {
+		for _, v := range x.sys.starts[x.start].probes {
+			_, w := x.model[v]
+			if c := x.bm.Contains(v); c != w {
+				bad, got, found = v, c, true
+				return
+			}
+		}
 		for _, v := range want {
 			if !x.bm.Contains(v) {
-				miss, missed = v, true
+				bad, got, found = v, false, true
 				return
 			}
 		}
 	}) {
 		return
 	}
-	if missed && !fn {
-		x.report("RoaringBitmap.Contains|false-negative|"+x.bucketClass(miss>>16), fmt.Sprintf("Contains(%s) = false, the value is a member%s", hex(miss), note))
+	if found {
+		if got {
+			x.fail("RoaringBitmap.Contains|false-positive|"+x.bucketClass(bad>>16), fmt.Sprintf("Contains(%s) = true, the value is not a member%s", hex(bad), note))
+		} else {
+			x.fail("RoaringBitmap.Contains|false-negative|"+x.bucketClass(bad>>16), fmt.Sprintf("Contains(%s) = false, the value is a member%s", hex(bad), note))
+		}
+		return
 	}
 
 	// complete ascending enumeration, three ways; production is cut a little above the expected
@@ -600,7 +630,7 @@ func (x *inst) battery(note string) {
 	}) {
 		return
 	}
-	x.cmpEnum("Range", out, want, note)
+	rangeOK := x.cmpEnum("Range", out, want, note)
 
 	if !x.call("All", func() {
 		out = out[:0]
@@ -613,11 +643,15 @@ func (x *inst) battery(note string) {
 	}) {
 		return
 	}
-	x.cmpEnum("All", out, want, note)
+	allOK := x.cmpEnum("All", out, want, note)
 
-	// early stop: fn / yield returns false at its k-th call, k = 1..3
+	// early stop: fn / yield returns false at its k-th call, k = 1..3 (only where the complete
+	// enumeration was right, a wrong one would only be echoed)
 	for k := 1; k <= 3 && k <= len(want); k++ {
 		for _, entry := range []string{"Range", "All"} {
+			if (entry == "Range" && !rangeOK) || (entry == "All" && !allOK) {
+				continue
+			}
 			calls := 0
 			var got []uint32
 			f := func(v uint32) bool {
@@ -639,36 +673,49 @@ func (x *inst) battery(note string) {
 			class := x.bucketClass(want[k-1] >> 16)
 			switch {
 			case calls > k:
-				x.report("RoaringBitmap."+entry+"|continues-after-false|"+class, fmt.Sprintf("%s called the function %d more time(s) after it returned false at call %d%s", entry, calls-k, k, note))
-			case calls < k:
-				x.report("RoaringBitmap."+entry+"|early-stop-incomplete|"+class, fmt.Sprintf("%s called the function %d time(s), the set has %d members and the function asked to stop at call %d%s", entry, calls, len(want), k, note))
-			case !slices.Equal(got, want[:k]):
-				x.report("RoaringBitmap."+entry+"|early-stop-wrong-element|"+class, fmt.Sprintf("%s delivered %s before the stop at call %d, want %s%s", entry, hexes(got), k, hexes(want[:k]), note))
+				x.report("RoaringBitmap."+entry+"|continues-after-stop|"+class, fmt.Sprintf("%s called the function %d more time(s) after it returned false at call %d%s", entry, calls-k, k, note))
+			case calls < k || !slices.Equal(got, want[:k]):
+				x.report("RoaringBitmap."+entry+"|wrong-before-stop|"+class, fmt.Sprintf("%s delivered %s (%d calls) when asked to stop at call %d, want %s%s", entry, hexes(got), calls, k, hexes(want[:k]), note))
 			}
 		}
 	}
 }
 
 // cmpEnum compares one produced enumeration with the sorted model: the count and every element.
-// The input class of the signature is taken from the position of the first discrepancy:
-// "multi-bucket" when the enumeration goes wrong exactly where it has to step from one bucket to
-// the next, else the representation of the bucket in which it goes wrong.
-func (x *inst) cmpEnum(entry string, out, want []uint32, note string) {
+// Failure kinds, from the property text "every member exactly once in ascending order":
+// "incomplete" = a member is not produced where it is due (the enumeration ends or jumps past it),
+// "unexpected-element" = something is produced that is not due (a non-member, a repetition, a
+// value out of order, or anything after the last member).
+// The input class is taken from the position of the first discrepancy: "multi-bucket" when the
+// enumeration goes wrong exactly where it has to step from one bucket to the next, else the
+// representation (sparse / dense) of the bucket in which it goes wrong.
+func (x *inst) cmpEnum(entry string, out, want []uint32, note string) bool {
 	i := 0
 	for i < len(out) && i < len(want) && out[i] == want[i] {
 		i++
 	}
 	if i == len(out) && i == len(want) {
-		return
+		return true
 	}
-	var kind, class string
+	var kind, class, what string
 	switch {
 	case i == len(want):
-		kind, class = "extra", "past-the-end-"+x.shape()
-	case i == len(out):
+		kind = "unexpected-element"
+		class = "empty-set"
+		if len(want) > 0 {
+			class = x.bucketClass(want[len(want)-1] >> 16)
+		}
+		what = fmt.Sprintf("%s produced more than the %d members: %s at position %d", entry, len(want), hex(out[i]), i)
+	case i == len(out) || out[i] > want[i]:
 		kind = "incomplete"
+		if i == len(out) {
+			what = fmt.Sprintf("%s produced %d of %d members: it stops after %s, the next member %s is never produced", entry, len(out), len(want), lastHex(out), hex(want[i]))
+		} else {
+			what = fmt.Sprintf("%s skips the member %s: it produced %s at position %d (%d members expected)", entry, hex(want[i]), hex(out[i]), i, len(want))
+		}
 	default:
-		kind = "wrong-element"
+		kind = "unexpected-element"
+		what = fmt.Sprintf("%s produced %s at position %d where %s is due (not a member, repeated or out of order; %d members expected)", entry, hex(out[i]), i, hex(want[i]), len(want))
 	}
 	if class == "" {
 		if i > 0 && want[i]>>16 != want[i-1]>>16 {
@@ -677,19 +724,11 @@ func (x *inst) cmpEnum(entry string, out, want []uint32, note string) {
 			class = x.bucketClass(want[i] >> 16)
 		}
 	}
-	var what string
-	switch kind {
-	case "incomplete":
-		what = fmt.Sprintf("%s produced %d of %d members: stops after %s, the next member %s is never produced", entry, len(out), len(want), lastHex(out), hex(want[i]))
-	case "extra":
-		what = fmt.Sprintf("%s produced more than the %d members: extra element %s at position %d", entry, len(want), hex(out[i]), i)
-	default:
-		what = fmt.Sprintf("%s produced %s at position %d, want %s (%d members expected, %d produced)", entry, hex(out[i]), i, hex(want[i]), len(want), len(out))
-	}
 	if len(want) <= 12 {
 		what += fmt.Sprintf("; got %s, want %s", hexes(out), hexes(want))
 	}
 	x.report("RoaringBitmap."+entry+"|"+kind+"|"+class, what+note)
+	return false
 }
 
 func lastHex(s []uint32) string {
